@@ -15,7 +15,9 @@ pub struct Ctx { pub out: Out, pub events: u64, pub rounds: u64, pub replies: u6
 
 impl Ctx {
     pub fn new(path: &str) -> Ctx { Ctx { out: std::io::BufWriter::new(std::fs::File::create(path).expect("create trace")), events: 0, rounds: 0, replies: 0, dropped_rounds: 0 } }
-    pub fn emit(&mut self, v: Value) { writeln!(self.out, "{}", v).unwrap(); self.events += 1; }
+    /// every event reaches the file at once: if the worker never returns from process_events the watchdog ends the run and
+    /// the trace must be complete up to that point
+    pub fn emit(&mut self, v: Value) { writeln!(self.out, "{}", v).unwrap(); self.out.flush().unwrap(); self.events += 1; }
 }
 
 pub fn cfg(batch: u8, fault: u8, level: usize, n_clients: usize) -> RigCfg {
@@ -983,6 +985,7 @@ pub fn record(driver: &str, seed: u64, tier: &str, out_path: &str, inp: &str) {
     rig::install_logger();
     let mut rng = Rng::new(seed ^ 0x5E21);
     let mut ctx = Ctx::new(out_path);
+    rig::start_watchdog(out_path);
     let thorough = tier == "thorough";
     let mut replayed = 0u64;
     for d in driver.split(',') {
